@@ -432,7 +432,7 @@ static void run_pool(Rng& g, long nops, std::size_t node_size, std::size_t block
                 ++n_cycles;
             }
         }
-        else if (k >= 84 && k < 88 && arrays && older == nullptr && g.chance(40))
+        else if (k >= 84 && k < 88 && arrays && older == nullptr && g.chance(45))
         { // cursor drill (ordered list: last_dealloc_/last_dealloc_prev_ around an array that is taken): K nodes, a seeded subset
           // released in seeded order, an array allocation, then the neighbours of the array are released
             std::vector<long> mine;
@@ -476,6 +476,100 @@ static void run_pool(Rng& g, long nops, std::size_t node_size, std::size_t block
             for (std::size_t q = nrel; q < order.size(); ++q)
                 release_id(order[q]);
             O->verify_all("after cursor drill");
+        }
+        else if (k >= 84 && k < 88 && arrays && older == nullptr && pool->capacity_left() / ns >= 8 && pool->capacity_left() / ns <= 96
+                 && g.chance(85))
+        { // tail drill (the D14 cursor state: last_dealloc_ == end proxy with a NON-empty list): take every free node, release a few
+          // non-adjacent low ones, then the two highest; allocate_array(2) takes exactly those two (the only run) so the cursor
+          // moves onto the end proxy; then everything else comes back in seeded order (front / back / interval releases in that state)
+            std::vector<long> mine;
+            std::size_t       total = pool->capacity_left() / ns;
+            for (std::size_t q = 0; q < total; ++q)
+            {
+                void*       p = nullptr;
+                std::string res = guarded([&] { p = pool->allocate_node(); });
+                emit("pool alloc_node", res.empty() ? fmt("ok %zu", R->off(p)) : res, pool_state(*pool));
+                if (!res.empty())
+                    break;
+                add_live(p, false, 1, ns, false, "taildrill.allocate_node");
+                mine.push_back(live.back().id);
+            }
+            auto release_id = [&](long id)
+            {
+                for (std::size_t q = 0; q < live.size(); ++q)
+                    if (live[q].id == id)
+                    {
+                        release(q);
+                        return;
+                    }
+            };
+            if (mine.size() >= 8)
+            {
+                // highest two by address
+                std::vector<std::pair<char*, long>> byaddr;
+                for (long id : mine)
+                    for (auto& l : live)
+                        if (l.id == id)
+                            byaddr.push_back({static_cast<char*>(l.p), id});
+                std::sort(byaddr.begin(), byaddr.end());
+                std::size_t n = byaddr.size();
+                std::vector<long> rest;
+                // a few non-adjacent low nodes first
+                for (std::size_t q = g.below(2); q + 3 < n && q < 8; q += 2)
+                    release_id(byaddr[q].second);
+                bool top_adjacent = byaddr[n - 2].first + ns == byaddr[n - 1].first;
+                if (g.chance(50))
+                {
+                    release_id(byaddr[n - 1].second);
+                    release_id(byaddr[n - 2].second);
+                }
+                else
+                {
+                    release_id(byaddr[n - 2].second);
+                    release_id(byaddr[n - 1].second);
+                }
+                if (top_adjacent)
+                {
+                    void*       p = nullptr;
+                    std::string res = guarded([&] { p = pool->allocate_array(2); });
+                    emit("pool alloc_array 2", res.empty() ? fmt("ok %zu", R->off(p)) : res, pool_state(*pool));
+                    if (res.empty())
+                        add_live(p, true, 2, ns, false, "taildrill.allocate_array");
+                }
+                // the first release in the "cursor on the end proxy" state: the lowest live node (front / interval), the array
+                // itself (back), or any; then everything of the drill that is still live goes back in seeded order
+                switch (g.below(3))
+                {
+                case 0:
+                    for (std::size_t q = 0; q < n; ++q)
+                    {
+                        bool is_live = false;
+                        for (auto& l : live)
+                            is_live = is_live || l.id == byaddr[q].second;
+                        if (is_live)
+                        {
+                            release_id(byaddr[q].second);
+                            break;
+                        }
+                    }
+                    break;
+                case 1:
+                    if (!live.empty() && live.back().array)
+                        release(live.size() - 1);
+                    break;
+                default: break;
+                }
+                for (std::size_t q = 0; q < n; ++q)
+                    rest.push_back(byaddr[q].second);
+                for (std::size_t q = rest.size(); q > 1; --q)
+                    std::swap(rest[q - 1], rest[g.below(q)]);
+                for (long id : rest)
+                    release_id(id);
+            }
+            else
+                for (long id : mine)
+                    release_id(id);
+            O->verify_all("after tail drill");
         }
         else if (k < 88 && older != nullptr && g.chance(35))
         { // std::swap's three moves: tmp(move(a)); a = move(b); b = move(tmp) - each assignment targets a MOVED-FROM pool
